@@ -136,6 +136,9 @@ func vChanBody[T any](ops VOps[T], cd Codec[T], c Config, o *Outcome) func() {
 			if c.Sys == "fmap" || c.Sys == "dup" {
 				name = "in"
 			}
+			if c.IsNil(i) {
+				continue // a nil channel argument: no channel, no producer
+			}
 			ins[i] = vsched.Make[T](name, c.Caps[i]).SetTag(i)
 			if !c.RoundRobin {
 				vsched.Spawn("prod"+strconv.Itoa(i), producerT(ins[i], c.Items[i], cd.Enc))
@@ -310,6 +313,9 @@ func rChanRun[T any](ops ROps[T], cd Codec[T], c Config, r *rand.Rand, o *Outcom
 	mkIns := func() []chan T {
 		ins := make([]chan T, len(c.Items))
 		for i := range ins {
+			if c.IsNil(i) {
+				continue // a nil channel argument
+			}
 			ins[i] = make(chan T, c.Caps[i])
 			items := c.Items[i]
 			if c.Prefill && (c.Sys == "fmap" || c.Sys == "dup") {
